@@ -70,6 +70,35 @@ CHECKS["C01"] = (
     "DESIGN.md §4 C01",
 )
 
+CHECKS["C03"] = (
+    "E-SMT+E-CH",
+    "z3 queries over the live yaml resolver table for scalars whose constructor raises (witnesses replayed through every text entry point) + CrossHair-driven fault injection at the yaml.load boundary",
+    "Bounded symbolic model checking of the loader boundary of the real code. z3 finds, from the resolver table read out of the running "
+    "loader, the strings (|s| <= 32) that are tagged int/float but on which PyYAML's constructor raises ValueError - inputs the loader's "
+    "declared exception set does not cover; every witness is replayed through nine entry points (parse_string, parse_path, --cfg text and "
+    "file, env config, default config file, typed option values, env variable) in both exit_on_error modes, and only ArgumentError / "
+    "exit status 2 with usage+error on stderr may leave the call. A CrossHair harness then injects, at yaml.load, a solver-chosen fault "
+    "(YAMLError, ValueError, non-dict return values) at a solver-chosen entry point and mode; a leaking fault is reported only through "
+    "its concrete witness on the unmodified loader. A fixed battery holds the document-structure/argv cases named in the property.",
+    "Trusted: the candidate fail languages of the int/float constructors (validated by solver-generated samples each run). Outside: argv "
+    "grammars as symbolic input (strings are consumed by argparse concretely), parser modes other than yaml, ints beyond 4300 digits "
+    "except one battery case.",
+    "DESIGN.md §4 C03",
+)
+CHECKS["C05"] = (
+    "E-SMT+E-CH",
+    "z3 inclusion queries: every JSON scalar literal is typed identically by the yaml and omegaconf resolver tables (unbounded length) + CrossHair symbolic execution of parse_object over three object spellings and solver-chosen concrete settings over six text channels",
+    "Bounded symbolic model checking of the real code. E-SMT: with the RFC 8259 number grammar as input domain, z3 shows for strings of "
+    "any length that the yaml-mode and omegaconf-mode resolver tables (read from the live loaders) give every JSON literal its JSON type, "
+    "so a JSON document is read identically under the yaml, json and omegaconf modes. E-CH: for 12 parser shapes the same symbolic "
+    "settings are parsed as nested dict, as flat dict with dotted keys and as Namespace (path trees exhausted); solver-chosen concrete "
+    "settings are additionally rendered as argv options, --cfg string, parse_string under three parser modes and environment variables; "
+    "all channels must agree on accept/reject and on the result, type for type.",
+    "Trusted: json mode as the reference reading of a JSON document, PyYAML/json scanners for strings, CrossHair/z3. Outside: jsonnet/toml "
+    "modes, JSON string escapes, strings at non-str positions, null at non-Optional positions (undecided in the docs).",
+    "DESIGN.md §4 C05",
+)
+
 NOT_APPLICABLE = {
     "C13": "the resolver's only input is source code on disk (inspect.getsource/ast.parse/import); a symbolic program cannot be "
     "represented for that code and types/defaults are part of the program, so no dimension of the quantifier can be a solver variable",
